@@ -165,6 +165,8 @@ def values_equal(a, b):
         return True
     if isinstance(a, (bool, int)) and isinstance(b, (bool, int)):
         return a == b
+    if isinstance(a, bytes) and isinstance(b, bytes):
+        return a == b
     if isinstance(a, dict) and isinstance(b, dict):
         return set(a) == set(b) and all(values_equal(a[k], b[k]) for k in a)
     from .mirsym.values import Opaque
